@@ -46,6 +46,11 @@ def main():
         if os.path.isdir(os.path.dirname(meta_p)):
             with open(meta_p, "w") as f:
                 json.dump(meta, f, indent=1)
+        if res.get("retired"):
+            meta["retired"] = res["retired"]
+            with open(meta_p, "w") as f:
+                json.dump(meta, f, indent=1)
+            needs = f"{needs} *(retired: {res['retired']})*"
         rows.append(f"| {name} | {what} | {needs} | {caught + ' tier' if caught else '**missed**'} | `{key}` | {'yes' if strengthened else 'no'} |")
     p = os.path.join(ROOT, "DESIGN.md")
     text = open(p).read()
